@@ -60,13 +60,20 @@ PROPS = {
              "3-10 op histories over 4 targets; concurrent Wrapper.Put/Get on a store yielding at every Get/Put/Del: ALL interleavings "
              "of 2 threads, 3 threads sampled (quick) / all (thorough); real dht.Server on a fake conn: inbound put/get and Server.Put, "
              "stored and named seqs at the int64 extremes; store faults: chosen Get/Put/Del calls of the underlying Store fail with a "
-             "non-ErrItemNotFound error during Wrapper.Put/Get, inbound put/get and Server.Put (model Bep44Fault.v). "
+             "non-ErrItemNotFound error during Wrapper.Put/Get, inbound put/get and Server.Put (model Bep44Fault.v); "
+             "stores that copy / rebuild items (custom bep44.Store: by-value copies, bep44.Put records via ToPut/ToItem, bencoded blobs, "
+             "rebuild on every Get): put;put;get;put;get over the seq grid, expiry boundary and refresh, random histories, inbound put/get and "
+             "Server.Put, and ageing through REAL time under a 400 ms expiry (all kinds in lockstep; model Bep44Rebuild.v; oracle "
+             "expired-item-served:by-true-age on the time since the accepted put returned). "
              "A case is distinct by its full input text; non-trivial = it executes at least one store call",
         trusted=["sync.Mutex provides mutual exclusion (modelled as a lock; goroutine wait states read from runtime.Stack)",
                  "interleaving granularity = the underlying Store's Get/Put/Del calls",
                  "virtual time via VerifAge in whole minutes; real time between operations < 1 min",
+                 "real time under the 400 ms expiry: a read over a stamp-keeping store is compared only when the clock readings taken around "
+                 "the call put the item on the side of the expiry the nominal pauses say (otherwise the case is dropped, `# ... dropped`)",
                  "crypto/ed25519 and crypto/sha1 (ed_verify is a parameter fed from the harness verdict table; sha1 is Dht.Sha1.sha1)"],
-        assumptions=["the underlying Store is a finite map (bep44.Memory) whose calls either take effect or fail without effect"],
+        assumptions=["the underlying Store is a finite map whose calls either take effect or fail without effect; it hands back the item "
+                     "it was given, a copy of it, or an item rebuilt from the exported fields (then without the time stamp)"],
     ),
     "C12": dict(
         engines=["bep44", "server"],
